@@ -3,6 +3,7 @@ package rules
 import (
 	"go/token"
 	"go/types"
+	"strings"
 
 	"golang.org/x/tools/go/ssa"
 	"verif/checker/internal/core"
@@ -344,6 +345,15 @@ func runC18(c *core.Ctx) {
 
 	// ---- R6
 	importObligations(c, runC05, "R6", func(o *core.Obligation) bool { return o.Rule == "R2" })
+	// the bound "queue size + one batch in flight" presupposes one sender at a time
+	c.Rule("R7", "a single sender at a time: the sender re-takes the flag before it continues, releases it once, and every flag access fits the protocol (shared with C01-R1, C02-R5/R8)", 2)
+	importObligations(c, runC01, "R7", func(o *core.Obligation) bool {
+		return o.Rule == "R1" && (strings.Contains(o.Key, "sender-owns-flag") || strings.Contains(o.Key, "start-site"))
+	})
+	importObligations(c, runC02, "R7", func(o *core.Obligation) bool { return strings.Contains(o.Key, "flag-access/") || o.Rule == "R8" })
+	// blocked writers are released by the cancel at the end of Close: Close must get there although the sender failed
+	c.Rule("R8", "Close reaches its cancel: the wait for the sender ends when the sender has failed (shared with C06)", 1)
+	ruleFailedSenderReleasesCloser(c, e, "R8")
 }
 
 func lookupGlobal(p *core.Prog, rel, name string) *ssa.Global {
